@@ -265,6 +265,10 @@ def gen_edge(rng, n, tier):
                 g = [base[0], g[1], g[2]]
             elif r < 0.24:
                 g = [g[0], base[1], g[2]]
+            if rng.random() < 0.2:
+                # "for any base point": a base high above the ellipsoid (a summit, an airliner, a space station, a GNSS satellite) and a point on the far side of the Earth, near a pole
+                base = [base[0], base[1], rng.choice([8848.0, 10000.0, 4.0e5, 2.02e7])]
+                g = [((base[0] + 180.0 + rng.uniform(-20, 20)) + 180.0) % 360.0 - 180.0, rng.choice([89.85, -89.85, 89.5, rng.uniform(-89.9, 89.9)]), rng.choice([0.0, rng.uniform(-1000, 10000)])]
             out.append({'kind': 'geo', 'g': g, 'base': base})
         elif k < 0.65:
             lon = rng.uniform(-5, 9.5); lat = rng.uniform(41.5, 51); h = rng.choice([0.0, rng.uniform(-100, 4800)])
@@ -293,8 +297,9 @@ def run_edge(case):
         g = GeoCoords(*case['g']); base = GeoCoords(*case['base'])
         P = g.toECEFCoords(); b = P.toGeoCoords()
         p = g.toENUCoords(base); b2 = p.toGeoCoords(base)
+        P3 = g.toENUCoords(base).toECEFCoords(base); b3 = P3.toGeoCoords()           # local -> Earth-centred with the same (geographic) base -> geographic
         o = GeoCoords(*case['base']).toENUCoords(base)
-        return {'P': [P.X, P.Y, P.Z], 'back': [b.lon, b.lat, b.hgt], 'back2': [b2.lon, b2.lat, b2.hgt], 'origin': [o.E, o.N, o.U]}
+        return {'P': [P.X, P.Y, P.Z], 'back': [b.lon, b.lat, b.hgt], 'back2': [b2.lon, b2.lat, b2.hgt], 'origin': [o.E, o.N, o.U], 'P3': [P3.X, P3.Y, P3.Z], 'back3': [b3.lon, b3.lat, b3.hgt]}
     if case['kind'] == 'lambert':
         g = GeoCoords(*case['g'])
         p = g.toProjCoords(2154)
@@ -361,7 +366,12 @@ def oracle_edge(case, obs):
         for name, a, b in zip('XYZ', obs['P'], cf):
             if not abs(a - b) <= 1e-6:
                 return 'toECEFCoords(%r): %s = %r, the closed-form WGS84 formula gives %r' % (case['g'], name, a, b)
-        for key, what in (('back', 'ECEF'), ('back2', 'local (base %r)' % case['base'])):
+        for name, a, b in zip('XYZ', obs.get('P3', cf), cf):
+            if not abs(a - b) <= 1e-3:
+                return 'geographic %r -> local (base %r) -> Earth-centred: %s = %r, the closed-form WGS84 formula gives %r' % (case['g'], case['base'], name, a, b)
+        for key, what in (('back', 'ECEF'), ('back2', 'local (base %r)' % case['base']), ('back3', 'local (base %r) -> Earth-centred' % case['base'])):
+            if key not in obs:
+                continue
             lo, la, hh = obs[key]
             if not (dlon(lo, lon) <= 1e-9 and abs(la - lat) <= 1e-9 and abs(hh - h) <= 1e-3):
                 return 'geographic %r -> %s -> geographic returns %r' % (case['g'], what, obs[key])
